@@ -1,7 +1,7 @@
 (* C06: model of Record.create_regions on a record whose areas do not span the origin: areas
    sorted with CDSCollection.__lt__ ((start, -length)), the sweep that joins an area to the
    running section when it overlaps the section's location (connect_locations = hull), the
-   first/last fix-up, and one region per section.  The sweep is C03's with cutoff 0. *)
+   merge of the sections overlapping the first one, and one region per section.  The sweep is C03's with cutoff 0. *)
 From ASV Require Export Base.
 From ASV.C03 Require Export Model.
 
@@ -13,18 +13,30 @@ Definition area_lt (a b : itv) : bool :=
 Definition sections (N : Z) (areas : list itv) : list (Z * Z * list itv) :=
   map (fun g : group => let '(cs, he, ms) := g in (cs, he, rev ms)) (rev (sweep N 0 (sort_by area_lt areas))).
 
-(* merge of the first and last section when their locations overlap *)
-Definition fixup (secs : list (Z * Z * list itv)) : list (Z * Z * list itv) :=
+(* the merge of every section whose location overlaps the first one's (create_regions repeats a backwards pass
+   over sections[1:] until a pass merges nothing; see cmerge_pass / cmerge_loop below for the code).
+   merge_pass: one pass, `others_rev` = sections[1:] reversed, `kept` = the sections passed over and kept *)
+Definition isec := (Z * Z * list itv)%type.
+Fixpoint merge_pass (fs fe : Z) (fa : list itv) (others_rev kept : list isec) (merged : bool)
+  : Z * Z * list itv * list isec * bool :=
+  match others_rev with
+  | [] => (fs, fe, fa, kept, merged)
+  | (os, oe, oa) :: r =>
+    if (fs <? oe) && (os <? fe)
+    then merge_pass (Z.min fs os) (Z.max fe oe)
+                    (fa ++ filter (fun a => negb (existsb (fun b => (s a =? s b) && (e a =? e b)) fa)) oa) r kept true
+    else merge_pass fs fe fa r ((os, oe, oa) :: kept) merged
+  end.
+Fixpoint merge_loop (fuel : nat) (secs : list isec) : list isec :=
+  match fuel, secs with
+  | S f, (fs, fe, fa) :: rest =>
+    let '(fs', fe', fa', kept, merged) := merge_pass fs fe fa (rev rest) [] false in
+    if merged then merge_loop f ((fs', fe', fa') :: kept) else (fs', fe', fa') :: kept
+  | _, _ => secs
+  end.
+Definition fixup (secs : list isec) : list isec :=
   match secs with
-  | (fs, fe, fa) :: (_ :: _) as rest =>
-    match last_opt rest with
-    | Some (ls, le, la) =>
-      if (fs <? le) && (ls <? fe)
-      then (Z.min fs ls, Z.max fe le, fa ++ filter (fun a => negb (existsb (fun b => (s a =? s b) && (e a =? e b)) fa)) la)
-           :: removelast rest
-      else secs
-    | None => secs
-    end
+  | _ :: _ :: _ => merge_loop (S (length secs)) secs
   | _ => secs
   end.
 
@@ -63,10 +75,10 @@ Definition apply_nop (st : list Z * numbering) (o : nop) : list Z * numbering :=
    Circular records (function ids 3..): areas carry Common/Loc.v locations - one part, or the two
    parts [s,N) ++ [0,e) of an origin-spanning area.  Record.add_candidate_cluster / add_subregion
    (bisect_left over CDSCollection.__lt__), Record.create_regions (areas.sort(), the sweep with
-   overlaps_with + connect_locations(wrap_point), the first/last merge), Region.__init__ (location of
+   overlaps_with + connect_locations(wrap_point), the merge of every section overlapping the first), Region.__init__ (location of
    the children, wrap point inferred, the constructor checks of CDSCollection / Feature, child.parent
-   = self asserting containment), Record.add_region (linear scan: overlap rejection, `region <
-   existing` stops the scan, ordered insertion).
+   = self asserting containment), Record.add_region (overlap rejection against every existing region,
+   then the ordered insertion at the first existing region the new one is less than).
    ==================================================================================== *)
 Record carea := mkCA { cid : Z; ckind : Z; cloc : loc }.     (* kind 0 = SubRegion, 1 = CandidateCluster *)
 
@@ -119,18 +131,47 @@ Fixpoint csweep (w : option Z) (location : loc) (incl_rev : list carea) (secs_re
 
 Definition in_areas (a : carea) (l : list carea) : bool := existsb (fun b => cid a =? cid b) l.
 
-(* merge of the first and the last section when their locations overlap *)
-Definition cfixup (w : option Z) (secs : list (loc * list carea)) : res (list (loc * list carea)) :=
-  match secs with
-  | (floc, fareas) :: (_ :: _) as rest =>
-    match last_opt rest with
-    | Some (lloc, lareas) =>
-      if overlap floc lloc then
-        do l <- connect_locations [floc; lloc] w;
-        Ok ((l, fareas ++ filter (fun a => negb (in_areas a fareas)) lareas) :: removelast rest)
-      else Ok secs
-    | None => Ok secs
+(* the merge of every section that overlaps the first one (only the first section can span the origin):
+     merged = len(sections) > 1
+     while merged:
+         merged = False
+         first_location, first_areas = sections[0]
+         for index in range(len(sections) - 1, 0, -1):      # backwards over sections[1:]
+             other_location, other_areas = sections[index]
+             if not locations_overlap(first_location, other_location): continue
+             sections.pop(index)
+             first_location = connect_locations([first_location, other_location], wrap_point=wrap_point)
+             first_areas += [area for area in other_areas if area not in first_areas]
+             merged = True
+         sections[0] = (first_location, first_areas)
+   cmerge_pass: one run of the for loop, `others_rev` = sections[1:] reversed, `kept` = the sections already passed
+   over and kept (in list order); cmerge_loop: the while loop; every pass that merged removed a section, so
+   S (length secs) passes are enough (cfixup_fuel in Proofs.v: the fuel never runs out) *)
+Definition csec := (loc * list carea)%type.
+Fixpoint cmerge_pass (w : option Z) (floc : loc) (fareas : list carea) (others_rev kept : list csec) (merged : bool)
+  : res (loc * list carea * list csec * bool) :=
+  match others_rev with
+  | [] => Ok (floc, fareas, kept, merged)
+  | (oloc, oareas) :: r =>
+    if negb (overlap floc oloc) then cmerge_pass w floc fareas r ((oloc, oareas) :: kept) merged
+    else do l <- connect_locations [floc; oloc] w;
+         cmerge_pass w l (fareas ++ filter (fun a => negb (in_areas a fareas)) oareas) r kept true
+  end.
+Fixpoint cmerge_loop (fuel : nat) (w : option Z) (secs : list csec) : res (list csec) :=
+  match fuel with
+  | O => Err E_Assert                      (* not reachable: cfixup_fuel *)
+  | S f =>
+    match secs with
+    | [] => Ok []
+    | (floc, fareas) :: rest =>
+      do r <- cmerge_pass w floc fareas (rev rest) [] false;
+      let '(l, a, kept, merged) := r in
+      if merged then cmerge_loop f w ((l, a) :: kept) else Ok ((l, a) :: kept)
     end
+  end.
+Definition cfixup (w : option Z) (secs : list csec) : res (list csec) :=
+  match secs with
+  | _ :: _ :: _ => cmerge_loop (S (length secs)) w secs
   | _ => Ok secs
   end.
 
@@ -163,15 +204,15 @@ Definition region_init (cands subs : list carea) : res cregion :=
     Ok (mkCR l cands subs)
   end.
 
-(* add_region: the linear scan *)
-Fixpoint add_scan (new : loc) (existing : list cregion) (i : nat) : res nat :=
+(* add_region: first every existing region is tested for an overlap (ValueError), then the insertion index is
+   the position of the first existing region the new one is less than *)
+Fixpoint add_index (new : loc) (existing : list cregion) (i : nat) : nat :=
   match existing with
-  | [] => Ok i
-  | ex :: r =>
-    if overlap new (rloc ex) then Err E_Value
-    else if coll_lt new (rloc ex) then Ok i
-    else add_scan new r (S i)
+  | [] => i
+  | ex :: r => if coll_lt new (rloc ex) then i else add_index new r (S i)
   end.
+Definition add_scan (new : loc) (existing : list cregion) (i : nat) : res nat :=
+  if existsb (fun ex => overlap new (rloc ex)) existing then Err E_Value else Ok (add_index new existing i).
 Definition add_region (N : Z) (regs : list cregion) (r : cregion) : res (list cregion) :=
   if (lstart (rloc r) <? 0) || (N <? lend (rloc r)) then Err E_Assert else
   do index <- add_scan (rloc r) regs 0;
